@@ -4,7 +4,7 @@ CONSTANTS Dates = {1}
           MaxMerges = 4
           MaxAgain = 0
           Stable = TRUE
-          Zones <- ZonesUEW
+          Zones <- ZonesEW
           ZoneAware = TRUE
 INIT Init
 NEXT NextMC
